@@ -38,7 +38,7 @@ def in_bounds(r, cfg):
 def main(ctx, pairs=None, budget_list=None, hist=None, selector=in_bounds, label="C03"):
     ev = ctx.ev
     quick = ctx.quick
-    pairs = pairs or (logixlib.TYPE_PAIRS[:4] if quick else logixlib.TYPE_PAIRS)
+    pairs = pairs or (logixlib.TYPE_PAIRS[:5] if quick else logixlib.TYPE_PAIRS)
     wd = core.workdir()
     rng = random.Random(ctx.seed)
     ev.rule = ("cases: (memory, request) pairs -- memories = every state reachable by <= 1 (quick) / 2 (thorough) "
